@@ -53,14 +53,15 @@ impl GenericTypeArgGenericType for IntRangeTypeWrapped {
     ) -> Result<TypeInfo, SpecializationError> {
         check_inner_type(wrapped_info)?;
 
-        // The following assert is a sanity check. It should follow from the fact that
-        // `check_inner_type` passed.
-        assert!(
-            wrapped_info.storable
-                && wrapped_info.duplicatable
-                && wrapped_info.droppable
-                && !wrapped_info.zero_sized
-        );
+        // For a declared integer type this follows from the fact that `check_inner_type` passed; a
+        // program may, however, refer to a type declared later with a type info of its own.
+        if !(wrapped_info.storable
+            && wrapped_info.duplicatable
+            && wrapped_info.droppable
+            && !wrapped_info.zero_sized)
+        {
+            return Err(SpecializationError::UnsupportedGenericArg);
+        }
         Ok(TypeInfo {
             long_id,
             duplicatable: true,
